@@ -34,6 +34,8 @@ func YieldPost(i int) int                      { panic("intrinsic") }
 func YieldEnvPre(i int) int                    { panic("intrinsic") }
 func YieldTime(i int) int64                    { panic("intrinsic") }
 func YieldSub(i int) *t_aio.Submission         { panic("intrinsic") }
+func YieldOutcome(i int) string                { panic("intrinsic") }
+func YieldRecv(i int) []byte                   { panic("intrinsic") }
 
 
 func Int64(name string) int64                  { panic("intrinsic") }
@@ -71,6 +73,9 @@ func MapHas(m map[string]string, k string) bool   { panic("intrinsic") }
 func StrPtrEq(a, b *string) bool               { panic("intrinsic") }
 func Int64PtrEq(a, b *int64) bool              { panic("intrinsic") }
 func HasPrefix(s, p string) bool               { panic("intrinsic") }
+func TemplateTrouble() bool                    { panic("intrinsic") }
+func Like(s, pattern string) bool              { panic("intrinsic") }
+func LikePattern(clientPattern string) string  { panic("intrinsic") }
 func TmplExpand(tmpl, id, ts string) string    { panic("intrinsic") }
 func Itoa(n int64) string                      { panic("intrinsic") }
 func CronNext(t int64, cron string) int64      { panic("intrinsic") }
